@@ -446,6 +446,8 @@ func main() {
 							{cBuf: cb, sProto: "fail-no-response"},
 							{cBuf: cb, sProto: "fail-head-cut"},
 							{cBuf: cb, sProto: "fail-body-short"},
+							// a refusal whose body is delimited by closing the connection (no Content-Length)
+							{cBuf: cb, sProto: "fail-body-until-close"},
 						} {
 							if strings.HasPrefix(cfg.sProto, "fail-") && tr != 0 {
 								continue
@@ -484,6 +486,8 @@ func main() {
 							} else if dc.p.sProto == "fail-no-response" {
 							} else if dc.p.sProto == "fail-head-cut" {
 								out.WriteString("HTTP/1.1 101 Switching Protocols\r\nUpgrade: webso")
+							} else if dc.p.sProto == "fail-body-until-close" {
+								out.WriteString("HTTP/1.1 403 Forbidden\r\nX-Why: policy\r\n\r\nnot for you, sorry")
 							} else if dc.p.sProto == "fail-body-short" {
 								out.WriteString("HTTP/1.1 400 Bad Request\r\nContent-Length: 10\r\n\r\nnope")
 							} else {
